@@ -1622,6 +1622,12 @@ class TLSConnection(TLSRecordLayer):
                                                      version=(3, 4))
                 signature_scheme = getFirstMatching(availSigAlgs,
                                                     valid_sig_algs)
+                if signature_scheme is None:
+                    for result in self._sendError(
+                            AlertDescription.handshake_failure,
+                            "No common signature algorithm for the client "
+                            "certificate"):
+                        yield result
                 scheme = SignatureScheme.toRepr(signature_scheme)
                 signature_scheme = getattr(SignatureScheme, scheme)
 
@@ -2053,6 +2059,12 @@ class TLSConnection(TLSRecordLayer):
         if certificateRequest and privateKey:
             valid_sig_algs = self._sigHashesToList(settings, privateKey,
                                                    clientCertChain)
+            if self.version == (3, 3) and not valid_sig_algs:
+                for result in self._sendError(
+                        AlertDescription.handshake_failure,
+                        "No signature algorithm enabled in settings can be "
+                        "used with the client certificate"):
+                    yield result
             try:
                 certificateVerify = KeyExchange.makeCertificateVerify(
                     self.version,
